@@ -20,6 +20,10 @@ NO_MB = {"VERIF_MB_KEYS": "0"}
 
 # suites: (name, cases quick, cases thorough[, extra environment])
 PROPS = {
+    "C02": {
+        "suites": [("kf1", 12, 60), ("proc", 300, 3000), ("apply", 100, 1000), ("kv", 60, 400)],
+        "title": "in every state reachable without a weak acceptance (known finding KF-1), every copy and every message in flight is exact up to its frontier w.r.t. the owner's write ledger; with weak acceptances allowed the statement is refuted by a reachable 3-node history (vm_compute witness)",
+    },
     "C03": {
         "suites": [("proc", 250, 2500), ("apply", 100, 1000)],
         "title": "global invariant over all reachable states: every entry of every copy is a write of the owner with that version; max version, watermark and heartbeat never exceed the owner's; messages carry only owner writes",
